@@ -20,6 +20,11 @@ oversubscription) are judged by ==, kind equality only (str() equality is record
 str() prints dictionaries in insertion order, which the protobuf maps do not keep).
 Primary mode: process-global environment.  Secondary mode: a sample rebuilt in a fresh Environment,
 every failure there is reported once under the signature `env-mixup`.
+Node kind of constants: a number in the position of a constant expression node is {"k": "n"} for the node
+the expression manager builds from the number (INT constant iff integral) and {"k": "r"} for the other
+node with an integral value, the REAL constant Real(Fraction(3)) (type real[3, 3], != Int(3)); both ends
+are projected with that distinction (`kinded`), ProtoForms puts such nodes in every constant position and
+G2 re-writes integral constants of generated problems into them (`variants`).
 Python holds no oracle: it builds objects, calls ProtobufWriter / ProtobufReader, projects to JSON.
 """
 import contextlib
@@ -64,9 +69,9 @@ def unlimbs(l):
 def enc(v):
     """UPJ -> UPJ with every number beyond 2^30 in limb form (what TLC reads)."""
     if isinstance(v, dict):
-        if v.get("k") == "n" and set(v) == {"k", "n", "d"}:
+        if v.get("k") in ("n", "r") and set(v) == {"k", "n", "d"}:
             if abs(v["n"]) >= BIG or v["d"] >= BIG:
-                return {"k": "N", "s": -1 if v["n"] < 0 else 1, "n": limbs(abs(v["n"])), "d": limbs(v["d"])}
+                return {"k": v["k"].upper(), "s": -1 if v["n"] < 0 else 1, "n": limbs(abs(v["n"])), "d": limbs(v["d"])}
             return v
         return {k: enc(x) for k, x in v.items()}
     if isinstance(v, list):
@@ -77,8 +82,8 @@ def enc(v):
 def dec(v):
     """limb form -> Python integers (what upj.build reads)."""
     if isinstance(v, dict):
-        if v.get("k") == "N":
-            return {"k": "n", "n": v["s"] * unlimbs(v["n"]), "d": unlimbs(v["d"])}
+        if v.get("k") in ("N", "R"):
+            return {"k": v["k"].lower(), "n": v["s"] * unlimbs(v["n"]), "d": unlimbs(v["d"])}
         return {k: dec(x) for k, x in v.items()}
     if isinstance(v, list):
         return [dec(x) for x in v]
@@ -102,6 +107,43 @@ def frac(v):
 def num(v):
     f = frac(v)
     return int(f) if f.denominator == 1 else f
+
+
+# ----------------------------------------------------------------------------------------
+# the node kind of constants (structure only)
+# ----------------------------------------------------------------------------------------
+# harness/upj.py writes a numeric constant node as its value and builds the node the expression manager
+# chooses for the value (Int iff integral).  The codec must also keep the OTHER node with an integral value:
+# the REAL constant 3/1.  Here it is {"k": "r", "n", "d"}; inside `kinded()` upj.project / upj.build
+# know it (the shared module is left as it is for the other checks; one process serves one check).
+_UPJ_P_CONST, _UPJ_B_VAL = upj.p_const, upj.b_val
+
+
+def p_const_k(e):
+    if e.is_real_constant() and Fraction(e.constant_value()).denominator == 1:
+        return {"k": "r", "n": Fraction(e.constant_value()).numerator, "d": 1}
+    return _UPJ_P_CONST(e)
+
+
+def b_val_k(v, sc):
+    if v["k"] == "r":
+        return sc.em.Real(Fraction(v["n"], v["d"]))
+    return _UPJ_B_VAL(v, sc)
+
+
+@contextlib.contextmanager
+def kinded():
+    old = upj.p_const, upj.b_val
+    upj.p_const, upj.b_val = p_const_k, b_val_k
+    try:
+        yield
+    finally:
+        upj.p_const, upj.b_val = old
+
+
+def build_k(P, env=None):
+    with kinded():
+        return upj.build(P, env)
 
 
 # ----------------------------------------------------------------------------------------
@@ -166,11 +208,12 @@ def p_htn(problem):
 def proj_problem(problem):
     """UPJ + the settings UPJ does not carry; None when the class has no projection."""
     try:
-        U = upj.project(problem)
+        with kinded():
+            U = upj.project(problem)
+            U["htn"] = p_htn(problem)
         U["epsilon"] = NONE if problem.epsilon is None else upj.NV(problem.epsilon)
         U["discrete"] = bool(problem.discrete_time)
         U["selfov"] = bool(problem.self_overlapping)
-        U["htn"] = p_htn(problem)
         return enc(U)
     except Exception:
         return None
@@ -180,7 +223,7 @@ NOPLAN = {"kind": "none", "steps": []}
 
 
 def p_ai(ai, t=NONE, d=NONE):
-    return {"a": ai.action.name, "args": [upj.p_const(x) for x in ai.actual_parameters], "t": t, "d": d}
+    return {"a": ai.action.name, "args": [p_const_k(x) for x in ai.actual_parameters], "t": t, "d": d}
 
 
 def proj_plan(plan):
@@ -261,6 +304,8 @@ def build_plan(problem, d):
                 args.append(em.ObjectExp(problem.object(v["o"])))
             elif v["k"] == "b":
                 args.append(em.Bool(v["b"]))
+            elif v["k"] == "r":
+                args.append(em.Real(frac(v)))
             else:
                 n = num(v)
                 args.append(em.Int(n) if isinstance(n, int) else em.Real(n))
@@ -355,7 +400,7 @@ def features(cls, obj, PJ):
         if isinstance(v, dict):
             if v.get("k") == "real" and "lo" in v and (v["lo"]["k"] == "none") != (v["hi"]["k"] == "none"):
                 fs.add("hbreal")
-            if v.get("k") == "N" and (unlimbs(v["n"]) >= I64 + (1 if v["s"] < 0 else 0) or unlimbs(v["d"]) >= I64):
+            if v.get("k") in ("N", "R") and (unlimbs(v["n"]) >= I64 + (1 if v["s"] < 0 else 0) or unlimbs(v["d"]) >= I64):
                 fs.add("beyond-int64")
     if PJ is not None and any(t.get("op") == "const" for t in PJ.get("traj", [])):
         fs.add("const-traj")
@@ -367,7 +412,7 @@ def features(cls, obj, PJ):
         for e in effs:
             e = dec(e.get("e", e))
             t = ftypes.get(e["f"]["name"], {})
-            if e["kind"] in ("inc", "dec") and e["v"]["op"] == "const" and e["v"]["v"]["k"] == "n" and t.get("k") in ("int", "real"):
+            if e["kind"] in ("inc", "dec") and e["v"]["op"] == "const" and e["v"]["v"]["k"] in ("n", "r") and t.get("k") in ("int", "real"):
                 c = frac(e["v"]["v"])
                 if (t["lo"]["k"] != "none" and c < frac(t["lo"])) or (t["hi"]["k"] != "none" and c > frac(t["hi"])):
                     fs.add("incdec-const-outside-bounds")
@@ -520,7 +565,7 @@ def job_g1(job):
     env = _fresh_env(fresh)
     try:
         with contextlib.redirect_stdout(io.StringIO()):
-            problem = call_limited(lambda: upj.build(dec(case["P"]), env), 30)
+            problem = call_limited(lambda: build_k(dec(case["P"]), env), 30)
             apply_x(problem, dec(case["x"]))
             if case["res"]["cls"] != "none":
                 cls, obj = case["res"]["cls"], call_limited(lambda: build_result(problem, case), 60)
@@ -554,7 +599,7 @@ def job_g2(job):
     env = _fresh_env(fresh)
     try:
         with contextlib.redirect_stdout(io.StringIO()):
-            problem = call_limited(lambda: upj.build(P, env), 30)
+            problem = call_limited(lambda: build_k(P, env), 30)
     except ImplTimeout:
         return [{"unbuildable": "TIMEOUT", "meta": meta}]
     except Exception as ex:
@@ -658,7 +703,77 @@ def variants(rng, P):
                         i["v"] = upj.NV(rng.choice([Fraction(10 ** 12, 7), -(10 ** 15), Fraction(1, 3 ** 30), 2 ** 62 + 1]))
                         flav.append("big-constant")
                         break
+    if rng.random() < 0.4:
+        flav += real_nodes(rng, P)
     return flav
+
+
+def _is_int_const(v):
+    return v.get("k") == "n" and v["d"] == 1
+
+
+def real_nodes(rng, P):
+    """integral constant nodes of a generated problem re-written as REAL constant nodes ({"k": "r"}), each with
+    probability 1/2, in the positions where the model-building API takes a real for an integer: initial and
+    default values of real fluents, values assigned / added to real fluents, the constant side of a comparison
+    (conditions, goals, constraints, effect conditions) and constant duration bounds"""
+    n = [0]
+
+    def flip(v):
+        if _is_int_const(v) and rng.random() < 0.5:
+            v["k"] = "r"
+            n[0] += 1
+
+    def in_expr(e):
+        if isinstance(e, dict) and "op" in e:
+            for a in e["args"]:
+                if e["op"] in ("le", "lt", "eq") and a["op"] == "const":
+                    flip(a["v"])
+                in_expr(a)
+
+    real = {f["name"] for f in P["fluents"] if f["type"]["k"] == "real"}
+    for f in P["fluents"]:
+        if f["name"] in real:
+            flip(f["default"])
+    for i in P["init"]:
+        if i["f"] in real:
+            flip(i["v"])
+
+    def in_effect(e):
+        if e["f"]["name"] in real and e["v"]["op"] == "const":
+            flip(e["v"]["v"])
+        in_expr(e["v"])
+        in_expr(e["c"])
+
+    for a in P["actions"]:
+        for c in a["pre"]:
+            in_expr(c)
+        for c in a["conds"]:
+            in_expr(c["c"])
+        for e in a["effects"]:
+            in_effect(e.get("e", e))
+        if a["dur"].get("k") != "none":
+            for b in ("lo", "hi"):
+                if a["dur"][b]["op"] == "const":
+                    flip(a["dur"][b]["v"])
+                in_expr(a["dur"][b])
+    for k in ("goals", "invariants", "traj"):
+        for g in P.get(k, []):
+            in_expr(g)
+    for tg in P.get("timed_goals", []):
+        in_expr(tg["g"])
+    for te in P.get("timed_effects", []):
+        in_effect(te["e"])
+    m = P.get("metric", {"kind": "none"})
+    if m["kind"] != "none":
+        for c in m["costs"]:
+            if c["c"]["op"] == "const":
+                flip(c["c"]["v"])
+        for e in (m["default"], m["expr"]):
+            if e["op"] == "const":
+                flip(e["v"])
+            in_expr(e)
+    return ["real-int-node"] if n[0] else []
 
 
 COMPS = ["grounder", "cerm", "dcrm", "ncrm", "qrm", "btrm", "sirm", "utfrm"]
@@ -908,6 +1023,13 @@ def selftest(ctx):
             "pgr": "SOLVED_SATISFICING:seq:one:many", "vr": "VALID:one:one:none:FF", "cr": "grounder"}
     jobs = [{"kind": "g1", "case": c} for c in cases if pick.get(c["cat"]) == c["form"]]
     recs = collect(ctx, [worker(j) for j in jobs], new_stats())
+    # REAL constant nodes with an integral value (kept apart from `pick`: one form per category there)
+    pick_rn = {"const": "large~realnode:goal", "plan": "seq:n-realnode:none:none"}
+    rn = collect(ctx, [worker({"kind": "g1", "case": c}) for c in cases if pick_rn.get(c["cat"]) == c["form"]], new_stats())
+    rn = {r["meta"]["cat"]: r for r in rn if r["mode"] == "proj"}
+    if len(rn) != len(pick_rn) or judge(ctx, "clean-realnode", list(rn.values())):
+        print("selftest: the clean observations with REAL constant nodes are not accepted")
+        return 1
     # the grounder's result has log_messages None, read back as []: a listed finding, not part of this test
     recs = [r for r in recs if r["mode"] == "proj"]
     clean = judge(ctx, "clean", recs)
@@ -963,6 +1085,15 @@ def selftest(ctx):
             f(r["b"])
         bad.append(r)
         expect.append(clause)
+    # the node kind of a constant is part of the projection: REAL 10^9/1 read back as INT 10^9, REAL 1/1 as INT 1
+    r = copy.deepcopy(rn["const"])
+    r["b"]["goals"][0]["args"][1]["v"]["k"] = "n"
+    bad.append(r)
+    expect.append("upj-goals")
+    r = copy.deepcopy(rn["plan"])
+    r["b"]["steps"][0]["args"][1]["k"] = "n"
+    bad.append(r)
+    expect.append("plan-step-arguments")
     for extra, clause in ((dict(kb=by["ntype"]["kb"] + ["CONDITIONAL_EFFECTS"]), "kind-gained-CONDITIONAL_EFFECTS"),
                           (dict(kb=by["ntype"]["kb"][1:]), "kind-lost-" + by["ntype"]["kb"][0]), (dict(eq=False), "impl-eq"),
                           (dict(r="raise"), "read-raises"), (dict(w="raise", must=True), "write-raises"),
